@@ -16,7 +16,7 @@ def parse_client_data_json(val: bytes) -> CollectedClientData:
 
     try:
         json_dict = json.loads(val)
-    except JSONDecodeError:
+    except ValueError:
         raise InvalidJSONStructure("Unable to decode client_data_json bytes as JSON")
 
     # Ensure required values are present in client data
